@@ -188,7 +188,15 @@ fn build(shape: &str) -> Result<(BTreeMap<String, String>, String), String> {
                     'V' => body(e, &format!("{{% set v = self.b{j}() %}}{{{{ v }}}}")),
                     'R' => body(e, &format!("{{{{ rb(\"b{j}\") }}}}")),
                     'M' => {
-                        macros.push_str(&format!("{{% macro bm{i}() %}}{call}{{% endmacro %}}"));
+                        // a block rendered from inside a macro only sees what the macro's closure
+                        // holds: make every wrapper macro enclose all of them
+                        let refs: String = edges
+                            .iter()
+                            .enumerate()
+                            .filter(|(_, e)| e.kind == 'M')
+                            .map(|(q, _)| format!("{{{{ bm{q} }}}}"))
+                            .collect();
+                        macros.push_str(&format!("{{% macro bm{i}() %}}{{% if false %}}{refs}{{% endif %}}{call}{{% endmacro %}}"));
                         body(e, &format!("{{{{ bm{i}() }}}}"))
                     }
                     'L' => body(e, &loop2(&call)),
@@ -353,12 +361,16 @@ fn run_in_children(cases: &[String]) -> Vec<String> {
                     .stderr(Stdio::null())
                     .spawn()
                     .expect("spawn child");
-                {
+                // feed stdin from a thread of its own: the child's stdout pipe fills up long before
+                // a large batch has been written
+                let feeder = {
                     let mut stdin = child.stdin.take().unwrap();
                     let text = todo.join("\n") + "\n";
-                    // the pipe may close early when the child dies; ignore
-                    let _ = stdin.write_all(text.as_bytes());
-                }
+                    std::thread::spawn(move || {
+                        // the pipe may close early when the child dies; ignore
+                        let _ = stdin.write_all(text.as_bytes());
+                    })
+                };
                 let out = BufReader::new(child.stdout.take().unwrap());
                 let before = results.len();
                 for line in out.lines() {
@@ -368,6 +380,7 @@ fn run_in_children(cases: &[String]) -> Vec<String> {
                     }
                 }
                 let status = child.wait().expect("wait");
+                let _ = feeder.join();
                 if results.len() < part.len() && (!status.success() || results.len() == before) {
                     use std::os::unix::process::ExitStatusExt;
                     let what = match status.signal() {
